@@ -250,7 +250,7 @@ func apiprog() {
 	rng := rand.New(rand.NewSource(*flagSeed))
 	nProg := 150
 	if *flagTier == "thorough" {
-		nProg = 4000
+		nProg = 2500
 	}
 	for pi := 0; pi < nProg; pi++ {
 		o := randOpts(rng)
